@@ -201,6 +201,7 @@ fn main() {
         "witness" => e2e::cmd_witness(&args),
         "panics" => e2e::cmd_panics(&args),
         "facade-conf" => e2e::cmd_facade_conf(&args),
+        "adapter-conf" => e2e::cmd_adapter_conf(&args),
         "sched-conf" => e2e::cmd_sched_conf(&args),
         "history" => components::cmd_history(&args),
         "reward" => components::cmd_reward(&args),
